@@ -24,6 +24,8 @@ Leaf == { [t |-> "none"], [t |-> "emptydict"],
           [t |-> "str", v |-> "tpcn"], [t |-> "str", v |-> ""],
           [t |-> "strlist", v |-> <<"a", "bc">>], [t |-> "strtuple", v |-> <<"x_0", "x_1">>],
           [t |-> "intlist", v |-> <<8, 8>>],
+          \* one-element containers keep their shape (they are not scalars)
+          [t |-> "intlist", v |-> <<8>>], [t |-> "strlist", v |-> <<"a">>], [t |-> "nparray", v |-> <<5>>],
           [t |-> "npint", v |-> 4], [t |-> "npfloat", v |-> 12],
           [t |-> "nparray", v |-> <<1, 2, 3>>], [t |-> "nparray2d", v |-> <<1, 2, 3, 4>>] }
 
@@ -47,9 +49,10 @@ ConfigCases == { [kind |-> "config", where |-> w, value |-> v, expect |-> NormDe
                    w \in {"flow_kwargs", "top"}, v \in Vals(MaxDepth) }
 
 (* ---- sample sets --------------------------------------------------------- *)
-SampleCases == { [kind |-> "samples", cls |-> c, ns |-> n, dtype |-> d, fields |-> fs, layout |-> l, via |-> via] :
+\* rows: number of samples in the set (a set of one sample is still a set: shape (1, d))
+SampleCases == { [kind |-> "samples", cls |-> c, ns |-> n, dtype |-> d, fields |-> fs, layout |-> l, via |-> via, rows |-> r] :
                    c \in {"Base", "Samples", "SMC"}, n \in {"numpy", "torch", "jax"}, d \in {"default", "float32", "float64"},
-                   fs \in SUBSET {"ll", "lp", "lq"}, l \in {"flat", "nested"}, via \in {"save"} }
+                   fs \in SUBSET {"ll", "lp", "lq"}, l \in {"flat", "nested"}, via \in {"save"}, r \in {1, 5} }
 \* observables that must be equal after reload
 SampleObservables == {"values", "parameters", "namespace", "dtype", "fields", "beta", "evidence", "class"}
 
